@@ -9,7 +9,7 @@ aspects that belong to it.
 import json
 
 from vf import gen, oracle
-from vf.probes import ProbeLog, Spec, build_instance, EXC_CLASSES, UserError
+from vf.probes import ProbeLog, Spec, build_instance, EXC_CLASSES, UserError, UnprintableError
 
 
 class Fixture(object):
@@ -89,6 +89,7 @@ def std_funcs():
         "failos": Spec("failos", "*a, **k", ("raise", OSError, "disk on fire")),
         "failuser": Spec("failuser", "*a, **k", ("raise", UserError, "user défined")),
         "failempty": Spec("failempty", "*a, **k", ("raise", RuntimeError, None)),
+        "failstr": Spec("failstr", "*a, **k", ("raise", UnprintableError, "text that str() cannot give")),
         "failattr": Spec("failattr", "*a, **k", ("raise", AttributeError, "'NoneType' object has no attribute 'x'")),
         "faillookup": Spec("faillookup", "*a, **k", ("raise", KeyError, "faillookup")),
         "failtype": Spec("failtype", "*a, **k", ("typeerror-body", "unsupported operand inside body")),
